@@ -83,6 +83,22 @@ def splitWsAux : Nat → Option Nat → Str → List Str
 
 def splitWs (maxsplit : Option Nat) (s : Str) : List Str := splitWsAux (s.length + 1) maxsplit s
 
+/-- Python `str.splitlines()` (keepends=False): separators `\n \r \r\n \v \f \x1c \x1d \x1e \x85
+\u2028 \u2029`; no trailing empty line. -/
+def isLineBreak (c : Char) : Bool :=
+  let n := c.toNat
+  n == 0x0A || n == 0x0D || n == 0x0B || n == 0x0C || n == 0x1C || n == 0x1D || n == 0x1E || n == 0x85 ||
+  n == 0x2028 || n == 0x2029
+
+def splitLinesAux : Str → Str → List Str
+  | [], acc => if acc.isEmpty then [] else [acc.reverse]
+  | '\r' :: '\n' :: cs, acc => acc.reverse :: splitLinesAux cs []
+  | c :: cs, acc =>
+    if isLineBreak c then acc.reverse :: splitLinesAux cs []
+    else splitLinesAux cs (c :: acc)
+
+def splitLines (s : Str) : List Str := splitLinesAux s []
+
 /-! ### prefix / suffix, membership -/
 
 def startsWith (s pre : Str) : Bool := pre.isPrefixOf s
@@ -103,13 +119,19 @@ def parseNat? (s : Str) : Option Nat :=
     | some a, some d => some (a * 10 + d)
     | _, _ => none) (some 0)
 
-/-- Python `int(s)` for ASCII decimal text. Underscores and non-ASCII digits are outside the modelled
-grammar and are rejected here (the harness never generates them). -/
+/-- digits with single underscores between digits (`int("1_000")`) -/
+def parseNatUnderscore? (s : Str) : Option Nat :=
+  let groups := splitChar '_' s
+  if groups.any (·.isEmpty) then none else parseNat? (groups.flatten)
+
+/-- Python `int(s)` for ASCII decimal text: surrounding whitespace stripped, optional sign, digits with
+single underscores between them.  Non-ASCII digits are outside the modelled grammar and are rejected
+here (the harness never generates them). -/
 def parseInt? (s : Str) : Option Int :=
   match strip s with
-  | '-' :: ds => (parseNat? ds).map (fun n => - (n : Int))
-  | '+' :: ds => (parseNat? ds).map (fun n => (n : Int))
-  | ds => (parseNat? ds).map (fun n => (n : Int))
+  | '-' :: ds => (parseNatUnderscore? ds).map (fun n => - (n : Int))
+  | '+' :: ds => (parseNatUnderscore? ds).map (fun n => (n : Int))
+  | ds => (parseNatUnderscore? ds).map (fun n => (n : Int))
 
 def natToStr (n : Nat) : Str := (toString n).toList
 def intToStr (i : Int) : Str := (toString i).toList
